@@ -2,13 +2,28 @@ package main
 
 import (
 	"fmt"
+	"sort"
 
 	"github.com/machship/mpath"
 )
 
 func main() {
-	op, err := mpath.ParseString(`$.a.b`)
-	fmt.Println(op, err)
-	r, err := op.Do(map[string]any{"a": map[string]any{"b": 1}}, map[string]any{"a": map[string]any{"b": 1}})
-	fmt.Printf("%T %v %v\n", r, r, err)
+	fs := mpath.ListFunctions()
+	names := []string{}
+	for k := range fs {
+		names = append(names, string(k))
+	}
+	sort.Strings(names)
+	for _, n := range names {
+		d := fs[mpath.FT_FunctionType(n)]
+		ps := ""
+		for _, p := range d.Params {
+			ps += fmt.Sprintf("%s:%s/%s ", p.Name, p.Type, p.IOType)
+		}
+		fmt.Printf("%-20s on=%s/%s ret=%s/%s known=%v params=[%s]\n", n, d.ValidOn.Type, d.ValidOn.IOType, d.Returns.Type, d.Returns.IOType, d.ReturnsKnownValues, ps)
+	}
+	fmt.Println(len(names))
+	d := map[string]any{"m": map[any]any{nil: 1, "a": 2}}
+	op, _ := mpath.ParseString("$.m.a")
+	fmt.Println(op.Do(d, d))
 }
